@@ -239,7 +239,9 @@ fn gen_parameterized(rng: &mut Rng, k: usize) -> Pair {
     let tpl = spell(rng, "Tpl", k, true);
     // parameter kinds: type or value
     let kinds: Vec<bool> = (0..n_params).map(|_| rng.chance(1, 2)).collect(); // true = type
-    let params: Vec<String> = kinds.iter().enumerate().map(|(i, t)| if *t { format!("T{i}") } else { format!("INTEGER : n{i}") }).collect();
+    // governors of value parameters: the built-in type, a user-defined type, user-defined types spelled in capitals
+    let govs: Vec<&str> = kinds.iter().map(|_| *rng.pick(&["INTEGER", "INTEGER", "Gov-Int", "UINT8", "N", "OCTET-COUNT"])).collect();
+    let params: Vec<String> = kinds.iter().enumerate().map(|(i, t)| if *t { format!("T{i}") } else { format!("{} : n{i}", govs[i]) }).collect();
     let mut members: Vec<String> = Vec::new();
     for (i, t) in kinds.iter().enumerate() {
         if *t {
@@ -253,12 +255,13 @@ fn gen_parameterized(rng: &mut Rng, k: usize) -> Pair {
     members.push("fixed [7] BOOLEAN".into());
     members.push("nested [8] SEQUENCE { deep [0] NULL, more [1] OCTET STRING OPTIONAL }".into());
     let body = format!("SEQUENCE {{ {} }}", members.join(", "));
+    let gov_defs = "Gov-Int ::= INTEGER\nUINT8 ::= INTEGER (0..255)\nN ::= INTEGER\nOCTET-COUNT ::= INTEGER (0..65535)\n";
     let mut sug = format!("{tpl} {{ {} }} ::= {body}\n", params.join(", "));
     let mut exp = String::new();
     let mut targets = Vec::new();
     for j in 0..1 + rng.below(3) {
         let inst = spell(rng, "Inst", k * 10 + j, true);
-        let args: Vec<String> = kinds.iter().map(|t| if *t { rng.pick(&["BOOLEAN", "INTEGER", "UTF8String", "NULL"]).to_string() } else { format!("{}", 1 + rng.below(300)) }).collect();
+        let args: Vec<String> = kinds.iter().map(|t| if *t { rng.pick(&["BOOLEAN", "INTEGER", "UTF8String", "NULL"]).to_string() } else { format!("{}", 1 + rng.below(250)) }).collect();
         sug.push_str(&format!("{inst} ::= {tpl} {{ {} }}\n", args.join(", ")));
         let mut b = body.clone();
         for (i, t) in kinds.iter().enumerate() {
@@ -279,6 +282,7 @@ fn gen_parameterized(rng: &mut Rng, k: usize) -> Pair {
         sug = lines.join("\n") + "\n";
     }
     let header = *rng.pick(&["AUTOMATIC TAGS", "EXPLICIT TAGS", "IMPLICIT TAGS", "EXPLICIT TAGS EXTENSIBILITY IMPLIED"]);
+    let (sug, exp) = (format!("{sug}{gov_defs}"), format!("{exp}{gov_defs}"));
     Pair { kind: format!("parameterized:{n_params}params"), sugared: module_h("Sug", header, &sug), expanded: module_h("Sug", header, &exp), targets, env: vec![] }
 }
 
